@@ -218,7 +218,14 @@ def lock_machine(mdl: M.Model, tr, dts, pwm0, w_init, out, pid='C13', start=0, h
             dt = dts[k]
             wstar_m = R * (w[k - 1] + a[k - 1] * dt)
         tprev = None if k == 0 else tq[k - 1]
-        near = abs(wstar_m) <= 1e-9 * scale_w and wstar_m != 0
+        # the sign of the advanced speed is what the lock condition reads. It is exact - however small the value -
+        # unless the two terms cancel (opposite signs, sum within 1e-9 of them) or the value sits at the floor of the
+        # float range
+        if k == 0 or w[k - 1] * a[k - 1] >= 0:
+            near = wstar_m != 0 and abs(wstar_m) <= 1e-280
+        else:
+            near = wstar_m != 0 and (abs(wstar_m) <= 1e-280 or
+                                     abs(wstar_m) <= 1e-9 * R * max(abs(w[k - 1]), abs(a[k - 1] * dts[k])))
         lockcond = mdl.self_locking and (D == 0 or (D > 0 and wstar_m < 0) or (D < 0 and wstar_m > 0))
         release = tprev is not None and ((tprev > 0 and D > 0) or (tprev < 0 and D < 0))
         near_t = tprev is not None and tprev != 0 and abs(tprev) <= 1e-9 * mdl.Tmax
